@@ -32,7 +32,83 @@ pub fn standard_table(flags: ClvmFlags) -> HashMap<String, Vec<u8>> {
     m
 }
 
+/// operator-level comparison: the same `Dialect::op` call on both dialects, including remaining budgets of
+/// 0, 1, 2, ... and the exact cost of the call (the interpreter hands operators whatever is left of the budget)
+fn op_level(ctx: &mut Ctx) {
+    use crate::mon::ops::{all_ops, gen_args, SizeMode};
+    use clvmr::dialect::{Dialect, OperatorSet};
+    let ops: Vec<_> = all_ops().into_iter().filter(|o| !matches!(o.code, 48 | 62 | 63) && o.code < 256).collect();
+    let n = ctx.n(400_000, 20_000_000);
+    random_cases!(ctx, n, |r, _i| {
+        let op = r.pick(&ops);
+        if op.slow && !r.chance(1, 10) {
+            continue;
+        }
+        let flags = gen_flags(
+            &mut r,
+            ClvmFlags::all() & !ClvmFlags::ENABLE_GC & !ClvmFlags::DISABLE_OP & !ClvmFlags::ENABLE_KECCAK_OPS_OUTSIDE_GUARD & !ClvmFlags::ENABLE_SHA256_TREE,
+        );
+        if matches!(op.code, 64 | 65) && !flags.contains(ClvmFlags::ENABLE_SECP_OPS) {
+            continue;
+        }
+        let mut f = Forest::new();
+        let mut args = gen_args(&mut r, &mut f, op, SizeMode::Small);
+        if r.chance(1, 4) {
+            // a pair somewhere behind a valid first argument: operators notice it only after charging for what precedes it
+            let (mut items, tail) = crate::mon::ops::flat_args(&f, args);
+            let one = f.atom(&[1]);
+            let p = f.pair(one, one);
+            let pos = if items.is_empty() { 0 } else { 1 + r.usize(items.len()) };
+            items.insert(pos.min(items.len()), p);
+            let mut l = tail;
+            for it in items.iter().rev() {
+                l = f.pair(*it, l);
+            }
+            args = l;
+        }
+        let chia = ChiaDialect::new(flags);
+        let eff = Dialect::flags(&chia);
+        let rt = RuntimeDialect::new(standard_table(flags), vec![1], vec![2], eff);
+        let call = |d: &dyn Fn(&mut Allocator, clvmr::NodePtr, clvmr::NodePtr, u64) -> clvmr::reduction::Response, budget: u64| {
+            let mut a = Allocator::new();
+            let argn = f.materialize_auto(&mut a, args).ok()?;
+            let opn = a.new_atom(&[op.code as u8]).ok()?;
+            let r = crate::outcome::guarded(|| d(&mut a, opn, argn, budget));
+            let (res, node) = crate::outcome::res_of(&a, r);
+            let bytes = node.and_then(|n| clvmr::serde::node_to_bytes_limit(&a, n, 10_000).ok());
+            Some((res, bytes))
+        };
+        let via_chia = |a: &mut Allocator, o, l, b| chia.op(a, o, l, b, OperatorSet::Default);
+        let via_rt = |a: &mut Allocator, o, l, b| rt.op(a, o, l, b, OperatorSet::Default);
+        let Some((base, _)) = call(&via_chia, u64::MAX) else { continue };
+        let mut budgets = vec![0u64, 1, 2, 3, 10, 100, u64::MAX];
+        if let Some(c) = base.cost() {
+            budgets.extend([c, c.saturating_sub(1), c + 1, r.range(1, c.max(2))]);
+        }
+        for b in budgets {
+            let (Some((o1, b1)), Some((o2, b2))) = (call(&via_chia, b), call(&via_rt, b)) else { continue };
+            ctx.eval();
+            ctx.count("operator_level_calls");
+            if b <= 3 {
+                ctx.count("operator_level_calls_with_tiny_remaining_budget");
+            }
+            let same = match (&o1, &o2) {
+                (Res::Ok { cost: c1, .. }, Res::Ok { cost: c2, .. }) => c1 == c2 && b1 == b2,
+                (Res::Err { variant: v1, .. }, Res::Err { variant: v2, .. }) => v1 == v2,
+                _ => false,
+            };
+            if !same {
+                let rec = json!({"operator": op.name, "opcode": op.code, "args": hex::encode(f.classic_bytes(args)), "flags": flags_json(flags),
+                    "remaining_budget": b, "chia": o1.to_json(), "runtime": o2.to_json()});
+                ctx.violation("runtime-dialect-differs/operator-call", rec);
+                break;
+            }
+        }
+    });
+}
+
 pub fn run(ctx: &mut Ctx) {
+    op_level(ctx);
     let n = ctx.n(2_000_000, 60_000_000);
     random_cases!(ctx, n, |r, _i| {
         let flags = gen_flags(
